@@ -150,32 +150,17 @@ theorem lenLoopU_spec {m : Bytes} (al : Nat) (tags : Bytes) :
       have hd' := drop_add_of_drop hd
       simp only [encArg, padStr_length] at hd' hlt hfu ⊢
       rw [nreserved_cons_true hr]
-      have hscan : ∃ q, scanNulU m (fuelU m) (u32 (pos + 1)) = .ok q ∧ pos < q ∧ q < 4294967296 ∧
-          q + (4 - (q - al) % 4) = pos + (s.length + (4 - s.length % 4)) := by
-        rw [u32_id (by omega)]
-        cases s with
-        | nil =>
-          have hd1 : m.drop (pos + 1) = [] ++ 0 :: (zeros 2 ++ (as.flatMap encArg ++ R)) := by
-            have hx : m.drop pos = [0] ++ (0 :: (zeros 2 ++ (as.flatMap encArg ++ R))) := by
-              rw [hd]; simp [encArg, padStr, zeros, List.replicate]
-            have := drop_add_of_drop hx; simpa using this
-          refine ⟨pos + 1 + 0, scanNulU_of_drop [] (pos + 1) (fuelU m) _ hd1 (by simp [NoNul]) (by simp [fuelU])
-            (by simp only [List.length_nil]; omega), by omega, by omega, ?_⟩
-          simp only [List.length_nil]; omega
-        | cons c s' =>
-          have hd1 : m.drop (pos + 1) = s' ++ 0 :: (zeros (3 - (c :: s').length % 4) ++ (as.flatMap encArg ++ R)) := by
-            have hx : m.drop pos = [c] ++ (s' ++ 0 :: (zeros (3 - (c :: s').length % 4) ++ (as.flatMap encArg ++ R))) := by
-              rw [hd, encArg, padStr_eq]; simp
-            have := drop_add_of_drop hx; simpa using this
-          simp only [List.length_cons] at hlt hfu ⊢
-          refine ⟨pos + 1 + s'.length, scanNulU_of_drop s' (pos + 1) (fuelU m) _ hd1 hs.tail (by omega)
-            (by omega), by omega, by omega, ?_⟩
-          omega
-      obtain ⟨q, hq1, hq2, hq3, hq4⟩ := hscan
+      have hd0 : m.drop pos = s ++ 0 :: (zeros (3 - s.length % 4) ++ (as.flatMap encArg ++ R)) := by
+        rw [hd, encArg, padStr_eq]; simp
+      have hq1 : scanNulU m (fuelU m) pos = .ok (pos + s.length) :=
+        scanNulU_of_drop s pos (fuelU m) _ hd0 hs (by omega) (by omega)
       have step : lenLoopU m al (nreserved ts + 1) (t :: ts) pos =
-          lenLoopU m al (nreserved ts) ts (u32 (q + (4 - usub q al % 4))) := by
+          lenLoopU m al (nreserved ts) ts
+            (u32 (pos + s.length + (4 - usub (pos + s.length) al % 4))) := by
         rcases ht with rfl | rfl <;> simp [lenLoopU, hq1]
-      rw [step, usub_eq (by omega) hq3, hq4, u32_id (by omega),
+      have hq4 : pos + s.length + (4 - (pos + s.length - al) % 4) =
+          pos + (s.length + (4 - s.length % 4)) := by omega
+      rw [step, usub_eq (by omega) (by omega), hq4, u32_id (by omega),
         ih as _ R hm' hwf' hd' hal (by omega) (by omega) (by omega) (by omega)]
       congr 1; omega
     · -- blob
